@@ -357,4 +357,13 @@ def RC_adjacency_built(ctx):
     R1_adjacency(ctx)
 
 
-RULES = [R1_decision_table, R2_loop_exits, R3_route_or_error, R4_response, R_graph_roles, R5_who_reports_no_path, RA_adjacency_container, RB_edge_oriented, RC_adjacency_built]
+def RD_incident_edges(ctx):
+    """"reachable through permitted edges" is decided over the edges a search is shown: Direction::get_incident_edges must be the
+    whole out- (Forward) / in- (Reverse) adjacency of the vertex, and the Graph accessors must read adj / rev as they are — an
+    accessor that de-duplicates by neighbouring vertex hides the parallel edge that is the only permitted one (shared with C01.R2;
+    round 6: get_incident_edges delegating to an incident_edges_iter that had become unique_by(vertex))"""
+    from props.C01 import R2_direction
+    R2_direction(ctx)
+
+
+RULES = [R1_decision_table, R2_loop_exits, R3_route_or_error, R4_response, R_graph_roles, R5_who_reports_no_path, RA_adjacency_container, RB_edge_oriented, RC_adjacency_built, RD_incident_edges]
